@@ -10,8 +10,12 @@ directory parts, replace in {'_', '-'}, force_nt in {False, True} and the enviro
 
 File system: androguard.misc sees a copy of the `os` module whose path.isfile/exists/lexists answer from a model
 file system (a set of paths).  FS_0 is empty and FS_m = FS_(m-1) + {the name returned under FS_(m-1)}: exactly the
-deviation "the first m names the function would like to use are taken".  A probe cap (64 probes per call) turns
+deviation "the first m names the function would like to use are taken".  A probe cap (256 probes per call) turns
 a non-terminating search into a verdict.
+Deep chains: for the names whose basename has >= 225 characters with c1, c2 in {letter, space, dot, '<'} (every
+directory part and replace, force_nt=False) the chain is continued to FS_12 (11 or more colliding files: the counter
+gets two digits); in the thorough tier the all-letter names with directory '' and replace '_' are continued to
+FS_101 (three digits).
 
 Invariant (the statement, nothing more), on the basename of the result:
   no reserved character  < > : " / \\ | ? *        no control character below 0x20
@@ -28,6 +32,7 @@ character and carry a cause only when it is nt-cut or unique-suffix), cause in
   long-extension    basename longer than 230 whose part after the last dot has >= 229 characters
   nt-cut            occurs with force_nt=True only (same input is fine with force_nt=False)
   unique-suffix     occurs only when the model FS contains names (same input is fine on the empty FS)
+  ...:counter>=10   (>=100) occurs only once the uniqueness counter has two (three) digits
 """
 import os
 import shutil
@@ -49,13 +54,20 @@ DIRS = ["", "d", "d/e", "/abs"]
 REPLACE = ["_", "-"]
 NT = [False, True]
 MS = [0, 1, 2, 3]
+# deep environment chains: where length boundaries matter the model FS keeps growing (FS_4 .. FS_12, thorough also
+# FS_13 .. FS_101 for the all-letter names) so that the uniqueness counter gets two (three) digits
+DEEP_TOKENS = ["a", " ", ".", "<"]
+DEEP_MIN_LEN = 225          # input basename length from which the deep chain is run
+DEEP_M = 12
+DEEP_M_LONG = 101
 FILL, EXTFILL = "a", "e"
 LIMIT = 230
-PROBE_CAP = 64
+PROBE_CAP = 256
 CWD_LEN = 20            # len(os.getcwd()) during the calls: force_nt consults os.path.abspath
 
 RULE = ("full product: i x j x k(ext) length alphabets x 20x20 tokens (c1,c2) x 4 directories x 2 replace x 2 force_nt x "
-        "(unique=False + unique=True on model FS_0..FS_3); distinct by construction (enumeration index); non-trivial = "
+        "(unique=False + unique=True on model FS_0..FS_3, continued to FS_12 (thorough: FS_101 for all-letter names) for "
+        "basenames >= 225 characters over a 4-token sub-alphabet); distinct by construction (enumeration index); non-trivial = "
         "the cleaning changed the basename or the model FS contained the first choice")
 ASSUMPTIONS = [
     "androguard.misc reaches the file system only through os.path.isfile/exists/lexists of its module-global `os` "
@@ -86,13 +98,47 @@ def _lens(ctx):
     return (LEN_FULL, EXT_FULL) if ctx.thorough else (LEN_QUICK, EXT_QUICK)
 
 
+def deep_upto(ctx, i, c1, j, c2, k, d, replace, nt):
+    """How far the model-FS chain is continued for this input (input-side rule); 3 = the ordinary family."""
+    if nt or c1 not in DEEP_TOKENS or c2 not in DEEP_TOKENS:
+        return MS[-1]
+    if i + len(c1) + j + len(c2) + (0 if k is None else k + 1) < DEEP_MIN_LEN:
+        return MS[-1]
+    if ctx.thorough and c1 == FILL and c2 == FILL and d == "" and replace == REPLACE[0]:
+        return DEEP_M_LONG
+    return DEEP_M
+
+
+def _deep_sizes(ctx):
+    ln, ex = _lens(ctx)
+    names = calls = long_names = 0
+    for i in ln:
+        for j in ln:
+            for k in ex:
+                for c1 in DEEP_TOKENS:
+                    for c2 in DEEP_TOKENS:
+                        if deep_upto(ctx, i, c1, j, c2, k, "d", REPLACE[1], False) > MS[-1]:
+                            names += 1
+                            for d in DIRS:
+                                for r in REPLACE:
+                                    u = deep_upto(ctx, i, c1, j, c2, k, d, r, False)
+                                    calls += u - MS[-1]
+                                    long_names += u == DEEP_M_LONG
+    return names, calls, long_names
+
+
 def space(ctx):
     ln, ex = _lens(ctx)
     names = len(ln) * len(ln) * len(ex) * len(TOKENS) ** 2
+    dn, dc, dl = _deep_sizes(ctx)
     return {"shape": "DIR + A^i c1 A^j c2 ['.' E^k]", "i,j": ln, "k": ["no extension" if k is None else k for k in ex],
             "c1,c2": [t if t.isprintable() else repr(t) for t in TOKENS], "dir": DIRS, "replace": REPLACE,
             "force_nt": NT, "environment": "unique=False; unique=True x model FS_m (first m wanted names exist), m in %r" % MS,
-            "names": names, "calls": names * len(DIRS) * len(REPLACE) * len(NT) * (1 + len(MS)),
+            "deep_chains": {"rule": "basename >= %d characters, c1,c2 in %r, force_nt=False: FS_m continued to m=%d%s"
+                                    % (DEEP_MIN_LEN, DEEP_TOKENS, DEEP_M,
+                                       "; all-letter names with dir '' and replace '_' to m=%d" % DEEP_M_LONG if ctx.thorough else ""),
+                            "names": dn, "extra_calls": dc, "chains_to_%d" % DEEP_M_LONG: dl},
+            "names": names, "calls": names * len(DIRS) * len(REPLACE) * len(NT) * (1 + len(MS)) + dc,
             "limit": LIMIT, "probe_cap": PROBE_CAP, "cwd_len": CWD_LEN}
 
 
@@ -215,15 +261,16 @@ def structural_cause(path):
     return "after-truncation"
 
 
-def family(env, path, replace, nt):
-    """The five environment answers for one input: [(unique, m, result, err, kinds)], model FS grown step by step."""
+def family(env, path, replace, nt, upto=MS[-1]):
+    """The environment answers for one input: [(unique, m, result, err, kinds, probes)], the model FS grown step by
+    step: unique=False, then unique=True on FS_0 .. FS_upto."""
     fs = env.fs
     fs.files.clear()
     out = []
     in_dir = os.path.dirname(path)
     res, err = call(env, path, False, replace, nt)
     out.append((False, 0, res, err, judge(in_dir, res, err, False, fs), fs.probes))
-    for m in MS:
+    for m in range(upto + 1):
         res, err = call(env, path, True, replace, nt)
         out.append((True, m, res, err, judge(in_dir, res, err, True, fs), fs.probes))
         if isinstance(res, str):
@@ -235,9 +282,12 @@ def key_for(env, path, replace, nt, fam, unique, m, kind, sib):
     """Input-side cause of one violation kind (differential against the sibling cases, then structural).
     sib: one-element list caching the force_nt=False sibling family of this input."""
     if unique and m > 0 and kind not in fam[1][4]:
+        digits = len(str(m - 1))                # FS_m: the counter reaches m-1
+        last_shorter = 10 ** (digits - 1)       # FS_10 / FS_100: last chain member with a shorter counter
+        tail = ":counter>=%d" % last_shorter if digits > 1 and kind not in fam[1 + last_shorter][4] else ""
         if kind.startswith("unique:"):
-            return kind
-        return "unique:suffix-overflow" if kind == "len>230" else kind + ":unique-suffix"
+            return kind + tail
+        return ("unique:suffix-overflow" if kind == "len>230" else kind + ":unique-suffix") + tail
     if nt:
         if not sib:
             saved = set(env.fs.files)
@@ -263,7 +313,9 @@ def _show(s):
 def check_input(env, acc, spec):
     i, c1, j, c2, k, d, replace, nt = spec
     path = build(i, c1, j, c2, k, d)
-    fam = family(env, path, replace, nt)
+    fam = family(env, path, replace, nt, deep_upto(env.ctx, *spec))
+    if len(fam) > 2 + MS[-1]:
+        env.deep += 1
     inb = path[path.rfind("/") + 1:]
     r0 = fam[0][2]
     sib = []
@@ -279,6 +331,8 @@ def check_input(env, acc, spec):
             changed, base, oc = True, None, (err,)
         if changed or m > 0:
             acc.nt_disjoint += 1
+        if m > MS[-1]:
+            oc = oc[:4] + (min(probes, MS[-1] + 2), len(str(m - 1))) + oc[5:]
         env.local_outcomes.add(oc)
         for kind in kinds:
             key = key_for(env, path, replace, nt, fam, unique, m, kind, sib)
@@ -300,8 +354,10 @@ def run_shard(ctx, shard):
     _, exts = _lens(ctx)
     i, j = shard
     env = Env()
+    env.ctx = ctx
     env.local_outcomes = set()
     env.del_kept = 0
+    env.deep = 0
     try:
         if env.cwd_len != CWD_LEN:
             acc.harness_error("scratch cwd has %d characters, expected %d" % (env.cwd_len, CWD_LEN))
@@ -316,6 +372,7 @@ def run_shard(ctx, shard):
         for oc in env.local_outcomes:
             acc.outcomes.add(h8(oc))
         acc.count("fs_probes", env.fs.total)
+        acc.count("deep_chains", env.deep)
         acc.count("del_0x7f_kept_not_judged", env.del_kept)
         if env.del_kept:
             acc.note("DEL (0x7f) is kept in results; not judged: the statement does not say whether DEL counts as a "
@@ -339,7 +396,7 @@ def replay(ctx, w):
         if env.cwd_len != CWD_LEN:
             raise RuntimeError("scratch cwd has %d characters, expected %d" % (env.cwd_len, CWD_LEN))
         path = build(w["i"], w["c1"], w["j"], w["c2"], w["k"], w["dir"])
-        fam = family(env, path, w["replace"], w["force_nt"])
+        fam = family(env, path, w["replace"], w["force_nt"], max(MS[-1], w["m"]))
         for unique, m, res, err, kinds, _p in fam:
             if unique == w["unique"] and m == w["m"] and kinds:
                 return "clean_file_name(%s, unique=%r, replace=%r, force_nt=%r), model FS with %d file(s) -> %s violates: %s" % (
@@ -356,6 +413,9 @@ def finalize(ctx, acc):
     if acc.extra.get("fs_probes", 0) < acc.n // 2:
         acc.harness_error("model file system was hardly consulted (%d probes for %d calls): the seam no longer "
                           "intercepts the function's file system access" % (acc.extra.get("fs_probes", 0), acc.n))
+    if acc.extra.get("deep_chains", 0) != sp["deep_chains"]["names"] * len(DIRS) * len(REPLACE) and not acc.harness_errors:
+        acc.harness_error("deep chains run %d != stated %d" % (acc.extra.get("deep_chains", 0),
+                                                               sp["deep_chains"]["names"] * len(DIRS) * len(REPLACE)))
     if len(acc.outcomes) < 12:
         acc.harness_error("only %d distinct outcome classes: the space degenerated" % len(acc.outcomes))
     if acc.nt_disjoint < acc.n // 4:
